@@ -194,6 +194,37 @@ func runC07(c *core.Ctx) {
 		}
 		c.Decide(ok, "C07-R3", "uponProposal|bump to the proposal's round", c.P.Pos(f.Pos()), "bumpToRound(msg.Round)", "accepting a proposal does not move the operator to the proposal's round")
 	}
+	// the round jumped to is the MINIMUM of the f+1 higher rounds: in minRound the running value is
+	// replaced only when it is unset or strictly above the candidate (a maximum would let one
+	// Byzantine round change for a far round drag every correct operator past the cut-off round)
+	if f := fn(c, "C07-R3", instPkg+".minRound"); f != nil {
+		a := c.E.Analyze(f)
+		n := 0
+		for _, b := range f.Blocks {
+			for _, in := range b.Instrs {
+				phi, ok := in.(*ssa.Phi)
+				if !ok {
+					continue
+				}
+				acc := a.D.D(phi).String()
+				for i, e := range phi.Edges {
+					cand := a.D.D(e).String()
+					if !strings.HasSuffix(cand, ".Message.Round") || i >= len(b.Preds) {
+						continue
+					}
+					n++
+					pred := b.Preds[i]
+					facts := a.FactsAt(pred.Instrs[len(pred.Instrs)-1])
+					_, unset := facts.Has("eq(0:Round, " + acc + ")")
+					_, lower := facts.Has("lt(" + cand + ", " + acc + ")")
+					_, either := facts.Has("when(ne(0:Round, " + acc + ") => lt(" + cand + ", " + acc + "))")
+					c.Decide(unset || lower || either, "C07-R3", "minRound|replaced only when unset or strictly above the candidate", c.P.Pos(pred.Instrs[len(pred.Instrs)-1].Pos()), "unset ∨ candidate < current",
+						"minRound takes "+cand+" without it being below the current value: the result is not the minimum round of the round changes")
+				}
+			}
+		}
+		c.Decide(n == 1, "C07-R3", "minRound|one update site", c.P.Pos(f.Pos()), "", fmt.Sprintf("%d update sites", n))
+	}
 	// ---------------- R4: a prepared operator's round change is one its peers accept.
 	// validRoundChangeForData accepts a prepared round change only with a quorum of prepares valid for
 	// (height, DataRound, Root); the creator must therefore attach the prepares of LastPreparedRound,
